@@ -618,6 +618,13 @@ func (g *Graph) flagTest(a Atom) (obj types.Object, k int64, eq bool, ok bool) {
 }
 
 func constVal(info *types.Info, e ast.Expr) (int64, bool) {
+	// pointers are abstracted to nil (0) and "freshly allocated" (1)
+	if IsNil(info, e) {
+		return 0, true
+	}
+	if isFreshAlloc(info, e) {
+		return 1, true
+	}
 	tv, ok := info.Types[e]
 	if !ok || tv.Value == nil {
 		return 0, false
@@ -633,6 +640,23 @@ func constVal(info *types.Info, e ast.Expr) (int64, bool) {
 		return n, exact
 	}
 	return 0, false
+}
+
+// isFreshAlloc: &T{...} or new(T).
+func isFreshAlloc(info *types.Info, e ast.Expr) bool {
+	e = ast.Unparen(e)
+	if u, ok := e.(*ast.UnaryExpr); ok && u.Op == token.AND {
+		_, isLit := ast.Unparen(u.X).(*ast.CompositeLit)
+		return isLit
+	}
+	if call, ok := e.(*ast.CallExpr); ok {
+		if id, ok := ast.Unparen(call.Fun).(*ast.Ident); ok {
+			if b, ok := info.Uses[id].(*types.Builtin); ok && b.Name() == "new" {
+				return true
+			}
+		}
+	}
+	return false
 }
 
 // constDefs returns the assignments of obj when all of them assign
@@ -681,6 +705,23 @@ func (g *Graph) constDefs(obj types.Object) []constDef {
 					} else {
 						return nil
 					}
+				}
+			}
+		case *ast.ValueSpec:
+			for i, n := range s.Names {
+				if g.Info.ObjectOf(n) != obj {
+					continue
+				}
+				if len(s.Values) == 0 {
+					out = append(out, constDef{v, 0})
+				} else if len(s.Values) == len(s.Names) {
+					k, isK := constVal(g.Info, s.Values[i])
+					if !isK {
+						return nil
+					}
+					out = append(out, constDef{v, k})
+				} else {
+					return nil
 				}
 			}
 		case *ast.IncDecStmt:
